@@ -620,7 +620,10 @@ Definition mp4_specs_render (l : list mp4_spec) : list Z := flat_map mp4_spec_re
 
 Inductive mp4_mitem := MHdlr | MIlst | MFree (n : Z) | MOther (n : Z).
 Record mp4_trak := mkTrak { tk_co64 : bool; tk_soun : bool; tk_entries : list Z }.
-Record mp4_moof := mkMoof { mf_flag : bool; mf_rel : Z; mf_tail : Z }.
+(* mf_flags: the 24 tf_flags of the tfhd; the optional fields they announce are present (0x1 base-data-offset 8 bytes,
+   0x2 sample-description-index, 0x8 default-sample-duration, 0x10 default-sample-size, 0x20 default-sample-flags: 4 bytes each;
+   0x010000 duration-is-empty and 0x020000 default-base-is-moof carry no field) *)
+Record mp4_moof := mkMoof { mf_flags : Z; mf_rel : Z; mf_tail : Z }.
 Record mp4_layout := mkLayout {
   ly_moov_first : bool;          (* moov before mdat *)
   ly_udta : Z;                   (* 0: no udta; 1: udta without meta; 2: udta with meta *)
@@ -633,7 +636,8 @@ Record mp4_layout := mkLayout {
   ly_mdat : list Z;              (* mdat payload *)
   ly_big : Z;                    (* 64-bit size forms: 1 moov, 2 udta, 4 meta, 8 mdat, 16 trak, 32 free, 64 stbl, 128 moof *)
   ly_topfree : Z;                (* 1: free atom after ftyp; 2: free atom at the end of the file *)
-  ly_size0 : bool                (* the last top-level atom has size field 0 *)
+  ly_size0 : bool;               (* the last top-level atom has size field 0 *)
+  ly_mdat2 : list Z              (* non-empty: a second mdat with this payload behind moov (media data on both sides of moov) *)
 }.
 
 Definition mp4_bit (m b : Z) : bool := Z.odd (m / b).
@@ -665,9 +669,13 @@ Definition mp4_moof_spec (big base : Z) (m : mp4_moof) : mp4_spec :=
     [SLeaf N_mfhd S32 (zeros 8);
      SNode N_traf S32
        [SLeaf N_tfhd S32
-          (if mf_flag m
-           then [0;0;0;1] ++ be_encode 4 1 ++ be_encode 8 (base + mf_rel m) ++ mp4_pattern (Z.to_nat (mf_tail m)) 3
-           else [0;0;0;0] ++ be_encode 4 1 ++ mp4_pattern (Z.to_nat (mf_tail m)) 3)]].
+          ([0] ++ be_encode 3 (mf_flags m) ++ be_encode 4 1 ++
+           (if mp4_bit (mf_flags m) 1 then be_encode 8 (base + mf_rel m) else []) ++
+           (if mp4_bit (mf_flags m) 2 then mp4_pattern 4 21 else []) ++
+           (if mp4_bit (mf_flags m) 8 then mp4_pattern 4 22 else []) ++
+           (if mp4_bit (mf_flags m) 16 then mp4_pattern 4 23 else []) ++
+           (if mp4_bit (mf_flags m) 32 then mp4_pattern 4 24 else []) ++
+           mp4_pattern (Z.to_nat (mf_tail m)) 3)]].
 
 Definition mp4_udta_spec (l : mp4_layout) : list mp4_spec :=
   if ly_udta l =? 0 then [] else
@@ -683,18 +691,22 @@ Definition mp4_moov_spec (l : mp4_layout) (base : Z) (sz : mp4_szform) : mp4_spe
     (SLeaf [109;118;104;100] S32 (mp4_pattern 24 9) ::
      (if ly_udta_first l then mp4_udta_spec l ++ traks else traks ++ mp4_udta_spec l)).
 
+Definition mp4_last0 (l : mp4_layout) : bool :=
+  ly_size0 l && negb (mp4_bit (ly_topfree l) 2) && match ly_mdat2 l with [] => true | _ => false end.
+
 Definition mp4_layout_specs (l : mp4_layout) (base : Z) : list mp4_spec * list mp4_spec :=
   (* (everything before the mdat payload's atom, everything from mdat on) *)
-  let endfree := if mp4_bit (ly_topfree l) 2 then [SLeaf N_free S32 (zeros 24)] else [] in
+  let endfree := (match ly_mdat2 l with [] => [] | _ => [SLeaf N_mdat S32 (ly_mdat2 l)] end) ++
+                 (if mp4_bit (ly_topfree l) 2 then [SLeaf N_free S32 (zeros 24)] else []) in
   let moofs := map (mp4_moof_spec (ly_big l) base) (ly_moofs l) in
   let head := SLeaf N_ftyp S32 [105;115;111;109;0;0;0;0;105;115;111;109] ::
               (if mp4_bit (ly_topfree l) 1 then [SLeaf N_free S32 (zeros 16)] else []) in
   if ly_moov_first l then
-    let mdat_sz := if ly_size0 l && negb (mp4_bit (ly_topfree l) 2) then S0 else mp4_sz (ly_big l) 8 in
+    let mdat_sz := if mp4_last0 l then S0 else mp4_sz (ly_big l) 8 in
     (head ++ [mp4_moov_spec l base (mp4_sz (ly_big l) 1)] ++ moofs,
      SLeaf N_mdat mdat_sz (ly_mdat l) :: endfree)
   else
-    let moov_sz := if ly_size0 l && negb (mp4_bit (ly_topfree l) 2) then S0 else mp4_sz (ly_big l) 1 in
+    let moov_sz := if mp4_last0 l then S0 else mp4_sz (ly_big l) 1 in
     (head ++ moofs,
      SLeaf N_mdat (mp4_sz (ly_big l) 8) (ly_mdat l) :: mp4_moov_spec l base moov_sz :: endfree).
 
@@ -702,7 +714,7 @@ Definition mp4_layout_specs (l : mp4_layout) (base : Z) : list mp4_spec * list m
 Definition mp4_mdat_base (l : mp4_layout) : Z :=
   zlen (mp4_specs_render (fst (mp4_layout_specs l 0))) +
   (if ly_moov_first l
-   then (if ly_size0 l && negb (mp4_bit (ly_topfree l) 2) then 8 else if mp4_bit (ly_big l) 8 then 16 else 8)
+   then (if mp4_last0 l then 8 else if mp4_bit (ly_big l) 8 then 16 else 8)
    else (if mp4_bit (ly_big l) 8 then 16 else 8)).
 
 Definition mp4_build (l : mp4_layout) : list Z :=
